@@ -1,11 +1,91 @@
 import IcyVerif.Model.Crc
+import IcyVerif.Model.CrcSites
 import IcyVerif.Drv.Util
 namespace IcyVerif.Drv.Crc
-open IcyVerif.Crc IcyVerif.Drv
+open IcyVerif.Crc IcyVerif.CrcSites IcyVerif.Drv
 
 def bytes8 (bs : List Nat) : List (BitVec 8) := bs.map (BitVec.ofNat 8)
 
+/-! ### call sites -/
+def be (bs : List Nat) : Nat := bs.foldl (fun a b => a * 256 + b) 0
+
+/-- 14 bytes per cell: ch (4, big endian), attr (2), fg (4), bg (4) -/
+def cellsOf : Nat → List Nat → List Cell
+  | 0, _ => []
+  | fuel+1, bs =>
+    if bs.length < 14 then [] else
+    ⟨be (bs.take 4), be ((bs.drop 4).take 2), be ((bs.drop 6).take 4), be ((bs.drop 10).take 4)⟩ :: cellsOf fuel (bs.drop 14)
+def rowsOf (w : Nat) : Nat → List Cell → Grid
+  | 0, _ => []
+  | fuel+1, cs => if cs.isEmpty || w = 0 then [] else cs.take w :: rowsOf w fuel (cs.drop w)
+
+def csvInts (s : String) : Option (List Int) :=
+  if s == "-" then some [] else (s.splitOn ",").mapM String.toInt?
+
+def strHex (s : String) : String := toHex (s.toList.map Char.toNat)
+
+def showRect : RectOut → String
+  | .send s => "S" ++ strHex s
+  | .seqError => "E seq"
+  | .areaError pt pl pb pr => s!"E area pt:{pt} pl:{pl} pb:{pb} pr:{pr}"
+
+def glyphTable (s : String) : Option GlyphTable :=
+  (s.splitOn ",").mapM fun e =>
+    if e == "_" then some none
+    else if e == "=" then some (some [])
+    else (parseHex e).map fun bs => some (bytes8 bs)
+
+def hexVal (s : String) : Option Nat :=
+  s.toList.foldl (fun acc c => match acc, hexDigit? c with | some a, some d => some (a * 16 + d) | _, _ => none) (some 0)
+def rgbOf (s : String) : Option Rgb :=
+  if s.length ≠ 6 then none else (hexVal s).map fun v => ⟨v / 65536 % 256, v / 256 % 256, v % 256⟩
+def idxRgb (s : String) : Option (Nat × Rgb) :=
+  match s.splitOn "." with
+  | [i, c] => match i.toNat?, rgbOf c with
+    | some i, some c => some (i, c)
+    | _, _ => none
+  | _ => none
+
+def palStart (t : String) : Option Pal :=
+  if t == "n" then some (Pal.fresh [])
+  else if t == "d" then some (Pal.fresh dosDefault)
+  else if t.startsWith "v" then (parseHex (t.drop 1).toString).map fun bs => Pal.fresh (triples bs)
+  else none
+def palOp (t : String) : Option PalOp :=
+  let arg := (t.drop 1).toString
+  if t == "c" then some .clear
+  else if t == "f" then some .fill16
+  else if t == "g" then some .getChecksum
+  else if t == "k" then some .clone
+  else if t.startsWith "p" then (rgbOf arg).map .push
+  else if t.startsWith "i" then (rgbOf arg).map .insertColor
+  else if t.startsWith "s" || t.startsWith "r" then (idxRgb arg).map fun x => .setColor x.1 x.2
+  else if t.startsWith "z" then arg.toNat?.map .resize
+  else none
+
 def handle : List String → String
+  | ["rect", tw, th, nums, cells] =>
+    match tw.toInt?, th.toInt?, csvInts nums, parseHex cells with
+    | some tw, some th, some nums, some bs =>
+      let cs := cellsOf (bs.length / 14 + 1) bs
+      showRect (decrqcra nums tw th (rowsOf tw.toNat (th.toNat + 1) cs))
+    | _, _, _, _ => "bad-op"
+  | ["font", len, table] =>
+    match len.toInt?, glyphTable table with
+    | some len, some t =>
+      let bytes := fontBytes len t
+      s!"{(fontChecksum len t).toNat} {(getCrc32 bytes ^^^ getCrc32 (List.replicate bytes.length 0)).toNat}"
+    | _, _ => "bad-op"
+  | ["pal", hist] =>
+    match hist.splitOn "," with
+    | [] => "bad-op"
+    | start :: toks =>
+      match palStart start, toks.mapM palOp with
+      | some p, some ops =>
+        let r := Pal.trace p ops
+        let flat := r.1.colors.flatMap fun c => [c.r, c.g, c.b]
+        " ".intercalate (r.2.map toString ++ [s!"|{r.1.colors.length}:{fnv flat}"])
+      | _, _ => "bad-op"
   | ["16", h] => match parseHex h with
     | some bs => toString (getCrc16 (bytes8 bs)).toNat | none => "bad-op"
   | ["32", h] => match parseHex h with
